@@ -811,3 +811,6 @@ impl ParsedFrameData {
         lf_coeff.lf_quant.image().unwrap().image_channels()
     }
 }
+
+#[cfg(jxl_oxide_verif)]
+pub(crate) use scan::verif as scan_verif;
